@@ -44,6 +44,11 @@ def _with_time_limit(fn, seconds):
         signal.signal(signal.SIGALRM, old)
 
 
+def _norm_key(k):
+    import re
+    return re.sub(r"samlang_\w+(::(<[^>]*>|\{[^}]*\}|[\w']+))+", 'F', k)
+
+
 def _known_keys():
     import json, os
     try:
@@ -78,7 +83,12 @@ def run_property(prog, pid, tier, repo, static_only=False):
                     n1 = sum(1 for res in results for i in res.instances
                              if i.status == 'ok' or (i.status == 'violation' and not i.key.startswith(('cannot-decide:', 'floor:'))))
                     n2 = sum(1 for res in again for i in res.instances if i.status == 'ok')
-                    if not bad2 and again and n2 >= n1:
+                    # ... and every report of the first verdict must have a positively decided counterpart: the same key up to
+                    # the names of the functions involved (an obligation that is classified differently on the inlined view -
+                    # a pass-through token that looks freshly built after inlining - is not the same obligation)
+                    ok2 = {_norm_key(i.full_key()) for res in again for i in res.instances if i.status == 'ok'}
+                    unmatched = [i for i in bad if not i.key.startswith(('cannot-decide:', 'floor:')) and _norm_key(i.full_key()) not in ok2]
+                    if not bad2 and again and n2 >= n1 and not unmatched:
                         for res in again:
                             res.analysed['decided_on'] = 'the view with private helper functions inlined (the code as written splits the shape across functions)'
                         results = again
